@@ -361,8 +361,9 @@ CUR_ALPHA = ALPHA
 
 def pick_alphabet(rng):
     """choose the byte alphabet of the short keys for the case being generated"""
-    global CUR_ALPHA
+    global CUR_ALPHA, TINY
     CUR_ALPHA = rng.choice(ALPHABETS)
+    TINY = rng.random() < 0.15
     return CUR_ALPHA
 
 VALBYTES = [0x61, 0x62, 0x00]
@@ -376,7 +377,12 @@ def gen_key(rng, long_pool=None):
     return bytes(rng.choice(CUR_ALPHA) for _ in range(n))
 
 
+TINY = False      # set per case by pick_alphabet: all values 1..3 bytes, so that whole sub-tries are embedded in their parents
+
+
 def gen_value(rng):
+    if TINY:
+        return bytes([rng.choice(VALBYTES)]) * rng.randint(1, 3)
     n = rng.choice(VLENS)
     return bytes([rng.choice(VALBYTES)]) * n
 
